@@ -411,7 +411,7 @@ func init() {
 			obs = append(obs, Obligation{Rule: "FMT.child-comments", Func: "formatter", Construct: "predicate summaries", Verdict: Proved, Detail: strings.Join(sums, "; "), Nontrivial: true})
 			for _, u := range units {
 				sig := u.Obj.Type().(*types.Signature)
-				if sig.Recv() == nil || !strings.HasSuffix(sig.Recv().Type().String(), "formatter.printer") {
+				if sig.Recv() == nil || !strings.HasSuffix(canonTypes(sig.Recv().Type().String()), "formatter.printer") {
 					continue
 				}
 				info := u.Pkg.TypesInfo
@@ -432,10 +432,10 @@ func init() {
 					for idx, n := range b.Nodes {
 						for _, ce := range callsIn(n, false) {
 							fn := originOf(Callee(info, ce))
-							if fn == nil || !writers[fn.Name()] || len(ce.Args) < 1 {
+							if fn == nil || !writers[shortName(originOf(fn))] || len(ce.Args) < 1 {
 								continue
 							}
-							if rs := fn.Type().(*types.Signature).Recv(); rs == nil || !strings.HasSuffix(rs.Type().String(), "formatter.printer") {
+							if rs := fn.Type().(*types.Signature).Recv(); rs == nil || !strings.HasSuffix(canonTypes(rs.Type().String()), "formatter.printer") {
 								continue
 							}
 							arg := ce.Args[0]
@@ -533,7 +533,7 @@ func init() {
 			obs = append(obs, Obligation{Rule: "FMT.child-trailing", Func: "formatter", Construct: "predicate summaries", Verdict: Proved, Detail: strings.Join(sums, "; "), Nontrivial: true})
 			for _, u := range units {
 				sig := u.Obj.Type().(*types.Signature)
-				if sig.Recv() == nil || !strings.HasSuffix(sig.Recv().Type().String(), "formatter.printer") {
+				if sig.Recv() == nil || !strings.HasSuffix(canonTypes(sig.Recv().Type().String()), "formatter.printer") {
 					continue
 				}
 				info := u.Pkg.TypesInfo
@@ -554,10 +554,10 @@ func init() {
 					for idx, n := range b.Nodes {
 						for _, ce := range callsIn(n, false) {
 							fn := originOf(Callee(info, ce))
-							if fn == nil || !writers[fn.Name()] || len(ce.Args) < 1 {
+							if fn == nil || !writers[shortName(originOf(fn))] || len(ce.Args) < 1 {
 								continue
 							}
-							if rs := fn.Type().(*types.Signature).Recv(); rs == nil || !strings.HasSuffix(rs.Type().String(), "formatter.printer") {
+							if rs := fn.Type().(*types.Signature).Recv(); rs == nil || !strings.HasSuffix(canonTypes(rs.Type().String()), "formatter.printer") {
 								continue
 							}
 							arg := ce.Args[0]
@@ -1007,7 +1007,7 @@ func init() {
 			var obs []Obligation
 			for _, u := range c.Funcs(func(p string) bool { return rel(p) == "formatter" }) {
 				sig := u.Obj.Type().(*types.Signature)
-				if sig.Recv() == nil || !strings.HasSuffix(sig.Recv().Type().String(), "formatter.printer") {
+				if sig.Recv() == nil || !strings.HasSuffix(canonTypes(sig.Recv().Type().String()), "formatter.printer") {
 					continue
 				}
 				info := u.Pkg.TypesInfo
